@@ -43,6 +43,20 @@ def variants(rng, c):
     out = [('original', c)]
     for i in range(6):
         out.append(('rewrite%d' % i, rewrite(rng, c, j=i)))
+    # the key bound repeated WITHOUT bindings in front of the bound that carries them (inline before
+    # where-clause, or both in the where-clause): the two spell one key, the bindings count
+    vc = copy.deepcopy(c)
+    for b in vc.blocks:
+        nb = []
+        for (bd, tr, binds, pl) in b.bounds:
+            if binds and tr != '__outlives__':
+                bare = bd.startswith('{') and bd.endswith('}') and bd.count('{') == 1
+                nb.append((bd, tr, {}, 'inline' if bare else 'where'))
+                nb.append((bd, tr, binds, 'where'))
+            else:
+                nb.append((bd, tr, binds, pl))
+        b.bounds = nb
+    out.append(('plain_copy_first', vc))
     if all(hasattr(b, 'dist_assoc') for b in c.blocks):
         # a bound written in two pieces: the piece with the distinguishing binding first / last
         for label, dist_last in (('dist_first', False), ('dist_last', True)):
